@@ -100,7 +100,7 @@ func c13config(c *Check, rng *rand.Rand, serverConns int) {
 	if serverConns > 1 {
 		// several connections per node: only the ASK / MOVED episodes (the order-sensitive
 		// pipeline oracle assumes one connection per node)
-		for i := 0; i < c.Pick(30, 300) && env.P.Alive(); i++ {
+		for i := 0; i < c.Pick(30, 300) && env.P.Alive() && c.NViol() < 12; i++ {
 			c13episode(c, rng, env, w, []string{"ask", "moved", "moved-then-ask"}[i%3], false, 1, 0)
 		}
 		return
@@ -117,6 +117,12 @@ func c13config(c *Check, rng *rand.Rand, serverConns int) {
 							c.Violate(Violation{Class: "proxy-died", Shape: "redirects", Detail: env.P.PanicLine(), Witness: env.P.OutputTail(2000)})
 							return
 						}
+						if c.NViol() >= 12 {
+							// a broken redirect path makes every further episode wait for its
+							// watchdogs: enough has been seen
+							c.Count("stopped_after_12_violations", 1)
+							return
+						}
 						c13episode(c, rng, env, w, kind, split, plen, pos)
 						episodes++
 					}
@@ -129,6 +135,10 @@ func c13config(c *Check, rng *rand.Rand, serverConns int) {
 	for ep := 0; ep < c.Pick(12, 200); ep++ {
 		if !env.P.Alive() {
 			c.Violate(Violation{Class: "proxy-died", Shape: "concurrent-redirects", Detail: env.P.PanicLine(), Witness: env.P.OutputTail(2500)})
+			return
+		}
+		if c.NViol() >= 12 {
+			c.Count("stopped_after_12_violations", 1)
 			return
 		}
 		c13concurrent(c, rng, env, w)
@@ -294,8 +304,12 @@ func c13concurrent(c *Check, rng *rand.Rand, env *Env, w *c13world) {
 func c13episode(c *Check, rng *rand.Rand, env *Env, w *c13world, kind string, split bool, plen, pos int) {
 	g := &pipeGen{env: env, script: w.script, rng: rng, gated: true, maxMultiKeys: 4, wSingle: 3, wMulti: 1, wPing: 1}
 	p := g.pipeline(plen)
-	// the redirected request
+	// the redirected request (now and then in the first or the last slot: 0 is also the
+	// zero value of every slot variable)
 	slot := rng.Intn(16384)
+	if rng.Intn(5) == 0 {
+		slot = []int{0, 16383, 0}[rng.Intn(3)]
+	}
 	owner := env.T.Owner(slot).Node
 	others := []*Node{}
 	for _, tn := range env.T.Nodes {
